@@ -6,20 +6,18 @@
     [threading.local]: the stdout thread and the stderr thread each see their own
     [index]/[failure_index]/[tried], freshly initialised.
 
-    [current] is what the code in /repo does, defects included:
-      - [pattern_matches] sets the index to the END OF THE READ when anything
-        matched ([index + len(new)]), so an occurrence that starts after the last
-        match of a read and is completed by a later read is never answered (F-C12a);
-      - [FailingResponder.submit] tests the truthiness of a generator object
-        ([if response: self.tried = True]), which is always true, so [tried]
-        latches on the very first submit (F-C12b).
-    [repaired] is the candidate patch (index := end of the last match;
-    materialise the response list before testing it). *)
+    [current] is what the code in /repo does now (after fix commits 28f435d and
+    380f659): [pattern_matches] moves the index to the END OF THE LAST MATCH, and
+    [FailingResponder.submit] materialises the response list before testing it.
+    [before_fix] is kept for the historical record only: index := end of the read
+    whenever anything matched (F-C12a, lost straddling occurrences) and [tried]
+    latched on the first submit because a generator object is always truthy
+    (F-C12b). *)
 From InvokeVerif Require Export Model.RegexFam.
 
 Record variant := mkV { fix_index : bool; fix_tried : bool }.
-Definition current : variant := mkV false false.
-Definition repaired : variant := mkV true true.
+Definition current : variant := mkV true true.
+Definition before_fix : variant := mkV false false.
 
 (** [Responder.pattern_matches(stream, pattern, index_attr)]:
     (number of matches returned, new value of the index attribute). *)
@@ -44,17 +42,15 @@ Definition submit (v : variant) (w : watcher) (s : wstate) (stream : text)
       let '(n, i') := pattern_matches v p (w_index s) stream in
       Some (repeat r n, mkW i' (w_findex s) (w_tried s))
   | WFail p r sen =>
-      (* response = super().submit(stream): a generator, nothing runs yet *)
+      (* the sentinel scan; the pattern scan is on a separate index, so the order
+         of the two scans is immaterial (before the fix the generator ran later) *)
       let '(f, fi') := pattern_matches v sen (w_findex s) stream in
       if w_tried s && Nat.ltb 0 f then None
       else
-        (* the runner iterates the generator: the pattern scan happens now *)
         let '(n, i') := pattern_matches v p (w_index s) stream in
         Some (repeat r n,
               mkW i' fi' (if fix_tried v then w_tried s || Nat.ltb 0 n else true))
   end.
-
-Definition submit_fixed := submit repaired.
 
 (** [Runner.respond]: watchers in list order; a raising watcher ends the thread. *)
 Fixpoint respond (v : variant) (ws : list watcher) (sts : list wstate) (stream : text)
